@@ -1,8 +1,421 @@
-//! C01, master side (filled in once the MasterRig exists)
+//! C01, master side: hostile session scripts against a real master (real link layer, transport function, task
+//! scheduler), then a liveness probe: the master still answers a link status request, still transmits a user request
+//! at once and completes it when it is answered.
+use crate::app::{FunctionCode, RetryStrategy, Timeout, Variation};
+use crate::master::*;
 use crate::verif::engine::*;
+use crate::verif::props::fraggen::{self, frag_strategy, FragSpec};
+use crate::verif::rig::master::{assoc_config, MTx, MasterRig, M_ADDR};
+use crate::verif::rig::runtime;
+use crate::verif::wire::app::{self as ra, func, Fragment};
+use crate::verif::wire::link as rl;
+use proptest::prelude::*;
+use serde::{Deserialize, Serialize};
+use std::time::Duration;
 
-pub fn run_master<C: Codec>(_ctx: &mut Ctx<C>) {}
+pub const OUT: u16 = 1024;
+pub const TIMEOUT: u64 = 200;
 
-pub fn replay_master<C: Codec>(_text: &str, _known: &[Known]) -> Option<i32> {
-    None
+#[derive(Clone, Debug, Serialize, Deserialize)]
+pub enum Step {
+    /// application fragment from the grammar (function biased to responses), in valid link frames from the outstation
+    Fragment(FragSpec, bool),
+    /// a response-shaped fragment that matches the request currently outstanding in sequence number: hostile object part
+    Answer(FragSpec),
+    /// the correct, empty/null answer to whatever is outstanding
+    Proper,
+    /// answer the outstanding request by echoing its object part: 0 faithfully, 1 with one more object in the first
+    /// prefixed header, 2 with one object fewer, 3 the whole object part twice, 4 count octet + 1 without data
+    Echo(u8),
+    /// raw octets as the payload of a valid link data frame
+    RawSegment(Vec<u8>),
+    /// raw octets straight onto the wire
+    RawBytes(Vec<u8>),
+    /// a frame from an address that has no association
+    Foreign(FragSpec),
+    /// user request: 0 read class 0, 1 read classes 1-3, 2 direct operate, 3 select-before-operate, 4 time sync LAN, 5 time sync non-LAN,
+    /// 6 cold restart, 7 link status, 8 write dead-bands, 9 freeze (empty response), 10 read g0v254, 11 read file
+    User(u8),
+    Advance(u16),
+    Reconnect,
+}
+
+#[derive(Clone, Debug, Serialize, Deserialize)]
+pub struct Case {
+    pub discard: bool,
+    pub decode: [u8; 4],
+    pub tx: u16,
+    /// full start-up sequence (disable unsolicited, integrity poll, enable unsolicited) or a quiet association
+    pub startup: bool,
+    pub poll_ms: Option<u16>,
+    pub keep_alive_ms: Option<u16>,
+    pub chunk: u16,
+    pub steps: Vec<Step>,
+}
+
+fn send_chunked(rig: &mut MasterRig, bytes: &[u8], chunk: u16) {
+    if chunk == 0 {
+        rig.send_raw(bytes);
+    } else {
+        for c in bytes.chunks(chunk as usize) {
+            rig.send_raw(c);
+        }
+    }
+}
+
+struct NullFileReader;
+impl FileReader for NullFileReader {
+    fn opened(&mut self, _size: u32) -> FileAction {
+        FileAction::Continue
+    }
+    fn block_received(&mut self, _block_num: u32, _data: &[u8]) -> crate::app::MaybeAsync<FileAction> {
+        crate::app::MaybeAsync::ready(FileAction::Continue)
+    }
+    fn aborted(&mut self, _err: FileError) {}
+    fn completed(&mut self) {}
+}
+
+pub async fn run_script(case: &Case) -> CaseOut {
+    let mut out = CaseOut::default();
+    let mut rig = MasterRig::start(case.discard, case.decode, case.tx).await;
+    let mut cfg = if case.startup {
+        let mut c = AssociationConfig::new(EventClasses::all(), EventClasses::all(), Classes::all(), EventClasses::all());
+        c.response_timeout = Timeout::from_millis(TIMEOUT).unwrap();
+        c.auto_tasks_retry_strategy = RetryStrategy::new(Duration::from_millis(50), Duration::from_millis(400));
+        c.auto_time_sync = Some(TimeSyncProcedure::Lan);
+        c
+    } else {
+        assoc_config(TIMEOUT)
+    };
+    cfg.keep_alive_timeout = case.keep_alive_ms.map(|x| Duration::from_millis(20 + x as u64));
+    rig.add_association(OUT, cfg, Some(1_700_000_000_000)).await;
+    if let Some(p) = case.poll_ms {
+        let mut h = rig.assocs.get_mut(&OUT).unwrap().handle.clone();
+        let _ = h.add_poll(ReadRequest::class_scan(Classes::all()), Duration::from_millis(20 + p as u64)).await;
+    }
+    rig.connect().await;
+    let mut last_req: Option<Fragment> = None;
+    let mut link_damage = false;
+    let mut injected_mid_task = false;
+
+    for step in &case.steps {
+        // what the master has transmitted so far: remember the latest request (to be able to "answer" it)
+        for (_, _, f) in rig.take_requests() {
+            if f.func != func::CONFIRM {
+                last_req = Some(f);
+            }
+        }
+        let outstanding = last_req.is_some();
+        match step {
+            Step::Fragment(spec, from_other_seq) => {
+                let mut bytes = fraggen::build(spec);
+                if !*from_other_seq {
+                    if let (Some(r), true) = (&last_req, bytes.len() >= 1) {
+                        bytes[0] = (bytes[0] & 0xF0) | r.seq;
+                    }
+                }
+                let b = rig.frame_fragment(OUT, M_ADDR, &bytes);
+                send_chunked(&mut rig, &b, case.chunk);
+                out.label(if outstanding { "inject_mid_task" } else { "inject_idle" });
+                injected_mid_task |= outstanding;
+                out.nontrivial = true;
+            }
+            Step::Answer(spec) => {
+                if let Some(r) = &last_req {
+                    // FIR/FIN response with the right sequence number and a hostile object part
+                    let mut bytes = vec![0xC0 | r.seq, 129, spec.iin.0, spec.iin.1 & 0xF8];
+                    for h in &spec.headers {
+                        bytes.extend(fraggen::build_header(h, 129, 1800usize.saturating_sub(bytes.len())));
+                    }
+                    bytes.truncate(2040);
+                    let b = rig.frame_fragment(OUT, M_ADDR, &bytes);
+                    send_chunked(&mut rig, &b, case.chunk);
+                    last_req = None;
+                    out.label("hostile_answer");
+                    injected_mid_task = true;
+                    out.nontrivial = true;
+                }
+            }
+            Step::Echo(kind) => {
+                if let Some(r) = last_req.take() {
+                    let mut objects = r.objects.clone();
+                    if let Ok(hs) = ra::walk(r.func, &r.objects) {
+                        if let Some(h) = hs.iter().find(|h| (h.q == 0x17 || h.q == 0x28) && !h.objects.is_empty()) {
+                            // re-encode that header with the chosen deviation (it is the first such header of the fragment)
+                            let start: usize = hs.iter().take_while(|x| *x != h).map(|x| x.raw_len).sum();
+                            let wide = h.q == 0x28;
+                            let mut objs: Vec<(u32, Vec<u8>)> = h.objects.iter().map(|o| (o.index.unwrap_or(0), o.data.clone())).collect();
+                            let mut count_bump = 0i32;
+                            match kind % 5 {
+                                1 => objs.push(objs.last().cloned().unwrap()),
+                                2 => {
+                                    objs.pop();
+                                }
+                                4 => count_bump = 1,
+                                _ => {}
+                            }
+                            let mut enc = vec![h.g, h.v, h.q];
+                            let n = objs.len() as i32 + count_bump;
+                            if wide {
+                                enc.extend_from_slice(&(n as u16).to_le_bytes());
+                            } else {
+                                enc.push(n as u8);
+                            }
+                            for (i, d) in &objs {
+                                if wide {
+                                    enc.extend_from_slice(&(*i as u16).to_le_bytes());
+                                } else {
+                                    enc.push(*i as u8);
+                                }
+                                enc.extend_from_slice(d);
+                            }
+                            let mut o = r.objects[..start].to_vec();
+                            o.extend(enc);
+                            o.extend_from_slice(&r.objects[start + h.raw_len..]);
+                            objects = o;
+                        }
+                    }
+                    if kind % 5 == 3 {
+                        let twice = objects.clone();
+                        objects.extend(twice);
+                    }
+                    objects.truncate(2030);
+                    let f = Fragment { fir: true, fin: true, con: false, uns: false, seq: r.seq, func: func::RESPONSE, iin: Some((0, 0)), objects };
+                    rig.respond(OUT, &f);
+                    out.label("echo_answer");
+                    injected_mid_task = true;
+                    out.nontrivial = true;
+                }
+            }
+            Step::Proper => {
+                if let Some(r) = last_req.take() {
+                    let f = Fragment { fir: true, fin: true, con: false, uns: false, seq: r.seq, func: func::RESPONSE, iin: Some((0, 0)), objects: vec![] };
+                    rig.respond(OUT, &f);
+                    out.label("proper_answer");
+                }
+            }
+            Step::RawSegment(data) => {
+                let b = rl::encode(0x44, M_ADDR, OUT, data);
+                send_chunked(&mut rig, &b, case.chunk);
+                out.label("raw_segment");
+                out.nontrivial = true;
+            }
+            Step::RawBytes(data) => {
+                send_chunked(&mut rig, data, case.chunk);
+                link_damage = true;
+                out.label("raw_bytes");
+            }
+            Step::Foreign(spec) => {
+                let bytes = fraggen::build(spec);
+                let b = rig.frame_fragment(3000, M_ADDR, &bytes);
+                send_chunked(&mut rig, &b, case.chunk);
+                out.label("foreign_source");
+            }
+            Step::User(k) => {
+                let mut h = rig.assocs.get_mut(&OUT).unwrap().handle.clone();
+                let name = format!("user{k}");
+                match k % 12 {
+                    0 => drop(rig.submit(&name, async move { h.read(ReadRequest::class_scan(Classes::class0())).await.map_err(|e| format!("{e:?}")) })),
+                    1 => drop(rig.submit(&name, async move { h.read(ReadRequest::class_scan(Classes::class123())).await.map_err(|e| format!("{e:?}")) })),
+                    2 => drop(rig.submit(&name, async move {
+                        h.operate(CommandMode::DirectOperate, CommandBuilder::single_header_u16(crate::app::control::Group12Var1::from_op_type(crate::app::control::OpType::LatchOn), 65535u16)).await.map_err(|e| format!("{e:?}"))
+                    })),
+                    3 => drop(rig.submit(&name, async move { h.operate(CommandMode::SelectBeforeOperate, CommandBuilder::single_header_u8(crate::app::control::Group41Var4::new(1.5), 255u8)).await.map_err(|e| format!("{e:?}")) })),
+                    4 => drop(rig.submit(&name, async move { h.synchronize_time(TimeSyncProcedure::Lan).await.map_err(|e| format!("{e:?}")) })),
+                    5 => drop(rig.submit(&name, async move { h.synchronize_time(TimeSyncProcedure::NonLan).await.map_err(|e| format!("{e:?}")) })),
+                    6 => drop(rig.submit(&name, async move { h.cold_restart().await.map(|_| ()).map_err(|e| format!("{e:?}")) })),
+                    7 => drop(rig.submit(&name, async move { h.check_link_status().await.map_err(|e| format!("{e:?}")) })),
+                    8 => drop(rig.submit(&name, async move { h.write_dead_bands(vec![DeadBandHeader::group34_var3_u16(vec![(65535, 1.5)])]).await.map_err(|e| format!("{e:?}")) })),
+                    9 => drop(rig.submit(&name, async move { h.send_and_expect_empty_response(FunctionCode::ImmediateFreeze, Headers::default().add_all_objects(Variation::Group20Var0)).await.map_err(|e| format!("{e:?}")) })),
+                    10 => drop(rig.submit(&name, async move { h.read(ReadRequest::all_objects(Variation::Group0Var254)).await.map_err(|e| format!("{e:?}")) })),
+                    _ => drop(rig.submit(&name, async move { h.read_file("f", FileReadConfig::default(), Box::new(NullFileReader), None).await.map_err(|e| format!("{e:?}")) })),
+                }
+                out.label("user_request");
+            }
+            Step::Advance(ms) => rig.advance(*ms as u64).await,
+            Step::Reconnect => {
+                rig.disconnect().await;
+                rig.connect().await;
+                last_req = None;
+                link_damage = false;
+            }
+        }
+        rig.settle().await;
+        if let Some(f) = rig.task_failure.clone() {
+            out.fail(f);
+            return out;
+        }
+        if !case.discard && !rig.session_alive() {
+            // Close mode: a link error ended the session cleanly; the next connection must serve
+            out.label("session_closed_by_link_error");
+            rig.connect().await;
+            last_req = None;
+            link_damage = false;
+        }
+    }
+    if injected_mid_task {
+        out.label("injected_mid_task");
+    }
+
+    // ---- liveness probe ---------------------------------------------------------------------
+    // let every outstanding task and retry delay run out, on a fresh connection so that link-layer resynchronisation
+    // state of a damaged stream is not part of the question
+    rig.disconnect().await;
+    rig.advance(5 * TIMEOUT).await;
+    rig.connect().await;
+    rig.advance(1).await;
+    // answer whatever the master asks for a while (start-up sequence, polls, queued user requests), with null responses
+    let mut quiet_rounds = 0;
+    for _ in 0..400 {
+        let reqs = rig.take_requests();
+        if reqs.is_empty() {
+            quiet_rounds += 1;
+            if quiet_rounds > 3 {
+                break;
+            }
+            rig.advance(TIMEOUT / 4).await;
+            continue;
+        }
+        quiet_rounds = 0;
+        for (_, _, r) in reqs {
+            if r.func == func::CONFIRM {
+                continue;
+            }
+            let f = Fragment { fir: true, fin: true, con: false, uns: false, seq: r.seq, func: func::RESPONSE, iin: Some((0, 0)), objects: vec![] };
+            rig.respond(OUT, &f);
+            rig.settle().await;
+        }
+        if let Some(f) = rig.task_failure.clone() {
+            out.fail(f);
+            return out;
+        }
+    }
+    let _ = rig.take_tx();
+    // (1) the link layer answers a link status request
+    let b = rl::encode(0x49, M_ADDR, OUT, &[]); // PRM=1, DIR=0 (from outstation), function 9 REQUEST_LINK_STATUS
+    rig.send_raw(&b);
+    rig.settle().await;
+    let tx = rig.take_tx();
+    let status_ok = tx.iter().any(|t| matches!(t, MTx::Link { ctrl, dst, .. } if (*ctrl & 0x0F) == 0x0B && *dst == OUT));
+    if !status_ok {
+        out.fail(Fail::new("probe-link-status", format!("after the script the master does not answer REQUEST_LINK_STATUS; it transmitted {:?}", tx)).with_sig("C01 master probe link status"));
+        return out;
+    }
+    // requests the master sent together with the link status reply (a poll that became due) are answered too
+    for t in &tx {
+        if let MTx::Fragment { bytes, .. } = t {
+            if let Some(r) = Fragment::parse(bytes) {
+                if r.func != func::CONFIRM {
+                    let f = Fragment { fir: true, fin: true, con: false, uns: false, seq: r.seq, func: func::RESPONSE, iin: Some((0, 0)), objects: vec![] };
+                    rig.respond(OUT, &f);
+                    rig.settle().await;
+                }
+            }
+        }
+    }
+    // (2) a user read is transmitted without further time passing and completes when answered
+    let mut h = rig.assocs.get_mut(&OUT).unwrap().handle.clone();
+    let p = rig.submit("probe", async move { h.read(ReadRequest::one_byte_range(Variation::Group1Var2, 3, 4)).await.map_err(|e| format!("{e:?}")) });
+    let mut answered = false;
+    for _ in 0..60 {
+        rig.settle().await;
+        for (_, _, r) in rig.take_requests() {
+            if r.func == func::CONFIRM {
+                continue;
+            }
+            let is_probe = r.func == func::READ && r.objects == ra::h_range8(1, 2, 3, 4, &[]);
+            let objects = if is_probe { ra::h_range8(1, 2, 3, 4, &[0x81, 0x01]) } else { vec![] };
+            let f = Fragment { fir: true, fin: true, con: false, uns: false, seq: r.seq, func: func::RESPONSE, iin: Some((0, 0)), objects };
+            rig.respond(OUT, &f);
+            rig.settle().await;
+            answered |= is_probe;
+        }
+        if !p.outcomes().is_empty() {
+            break;
+        }
+        // other queued work (a poll that is running) may be ahead of the probe: one response timeout at a time
+        rig.advance(TIMEOUT / 4).await;
+    }
+    let res = p.outcomes();
+    if let Some(f) = rig.task_failure.clone() {
+        out.fail(f);
+        return out;
+    }
+    if !answered || res.len() != 1 || !res[0].1.starts_with("Ok") {
+        out.fail(Fail::new("probe-user-read", format!("after the script a user READ is not served normally: request seen and answered = {answered}, outcome {:?}", res)).with_sig("C01 master probe user read"));
+        return out;
+    }
+    let _ = link_damage;
+    out
+}
+
+pub struct MasterScript;
+impl Prop for MasterScript {
+    type Case = Case;
+    const ID: &'static str = "C01";
+    const NAME: &'static str = "master_script";
+    const TRACK_STALL: bool = true;
+    fn rule() -> &'static str {
+        "hostile session scripts against a real master (real link layer, transport function, task scheduler; start-up sequence with time sync or a quiet association, optional poll and keep-alive): grammar+mutated fragments with response function codes sent while a task is outstanding (sequence number matched or not) and while idle, well-sequenced responses with hostile object parts to every kind of user request (reads, commands, time sync, restart, dead-bands, freeze, attributes, file read), raw transport segments, raw wire bytes, frames from an unknown outstation, time advances, reconnects, all decode levels, both link error modes, chunked delivery; oracle: no panic, no busy loop, and afterwards the master answers REQUEST_LINK_STATUS and serves a user READ (transmitted, answered, completes Ok); non-trivial = an injected item that reached the transport/application layer"
+    }
+    fn strategy(tier: Tier) -> BoxedStrategy<Case> {
+        let resp_frag = || {
+            frag_strategy().prop_map(|mut f| {
+                // bias towards response function codes and response control flags
+                if f.func % 5 != 0 {
+                    f.func = if f.func % 3 == 0 { 130 } else { 129 };
+                }
+                if f.func == 130 {
+                    f.ctrl |= 0x10;
+                }
+                f
+            })
+        };
+        let step = prop_oneof![
+            5 => (resp_frag(), any::<bool>()).prop_map(|(f, o)| Step::Fragment(f, o)),
+            5 => resp_frag().prop_map(Step::Answer),
+            2 => Just(Step::Proper),
+            4 => (0u8..5).prop_map(Step::Echo),
+            1 => proptest::collection::vec(any::<u8>(), 0..40).prop_map(Step::RawSegment),
+            1 => proptest::collection::vec(any::<u8>(), 1..40).prop_map(Step::RawBytes),
+            1 => resp_frag().prop_map(Step::Foreign),
+            6 => (0u8..12).prop_map(Step::User),
+            2 => prop_oneof![Just(1u16), Just(199), Just(200), Just(201), 0u16..600].prop_map(Step::Advance),
+            1 => Just(Step::Reconnect),
+        ];
+        let n = if tier == Tier::Quick { 14 } else { 40 };
+        (
+            any::<bool>(),
+            any::<[u8; 4]>(),
+            prop_oneof![2 => Just(249u16), 1 => 249u16..=2048, 1 => Just(2048u16)],
+            any::<bool>(),
+            proptest::option::of(0u16..500),
+            proptest::option::of(0u16..500),
+            prop_oneof![2 => Just(0u16), 1 => 1u16..300],
+            proptest::collection::vec(step, 1..n),
+        )
+            .prop_map(|(discard, decode, tx, startup, poll_ms, keep_alive_ms, chunk, steps)| Case { discard, decode, tx, startup, poll_ms, keep_alive_ms, chunk, steps })
+            .boxed()
+    }
+    fn cases(tier: Tier) -> u32 {
+        match tier {
+            Tier::Quick => 40_000,
+            Tier::Thorough => 2_000_000,
+        }
+    }
+    fn run(case: &Case) -> CaseOut {
+        let rt = runtime();
+        rt.block_on(run_script(case))
+    }
+    fn floors() -> Vec<(&'static str, u32)> {
+        vec![("inject_mid_task", 100), ("hostile_answer", 100), ("inject_idle", 50)]
+    }
+}
+
+pub fn run_master<C: Codec>(ctx: &mut Ctx<C>) {
+    ctx.run::<MasterScript>();
+}
+
+pub fn replay_master<C: Codec>(text: &str, known: &[Known]) -> Option<i32> {
+    replay_file::<C, MasterScript>(text, known)
 }
